@@ -104,22 +104,27 @@ class ZorgFileCompiler(ZorgFileListener):
         get_datetime = partial(
             dt.datetime.strptime, ctx.DATE().getText(), "%Y-%m-%d"
         )
+        try:
+            date = get_datetime().date()
+        except ValueError:
+            # Date-shaped word that is not a calendar date (e.g. 2024-13-45).
+            return
         if (
             self._s.in_note
             and self._s.ids_in_note == 1
             and self._s.note_date is None
         ):
-            self._s.note_date = get_datetime().date()
+            self._s.note_date = date
         elif self._s.in_h4_header:
-            self._s.h4_date = get_datetime().date()
+            self._s.h4_date = date
         elif self._s.in_h3_header:
-            self._s.h3_date = get_datetime().date()
+            self._s.h3_date = date
         elif self._s.in_h2_header:
-            self._s.h2_date = get_datetime().date()
+            self._s.h2_date = date
         elif self._s.in_h1_header:
-            self._s.h1_date = get_datetime().date()
+            self._s.h1_date = date
         elif self._s.in_first_comment:
-            self._s.file_date = get_datetime().date()
+            self._s.file_date = date
 
     def enterH1_header(
         self, ctx: ZorgFileParser.H1_headerContext
@@ -172,16 +177,25 @@ class ZorgFileCompiler(ZorgFileListener):
             if self._s.ids_in_note == 1 and zdt.is_short_date_spec(
                 short_date := ctx.getText()
             ):
-                self._s.modify_date = zdt.from_short_date_spec(short_date)
+                try:
+                    self._s.modify_date = zdt.from_short_date_spec(short_date)
+                except ValueError:
+                    # Six digits that are not a calendar date (e.g. 249999).
+                    pass
             elif (
                 self._s.ids_in_note == 1
                 or (self._s.ids_in_note == 2 and self._s.modify_date)
             ) and zdt.is_zid(zid := ctx.getText()):
-                self._s.zid = zid
                 zorg_id_date = f"20{zid.split('#')[0]}"
-                self._s.note_date = dt.datetime.strptime(
-                    zorg_id_date, "%Y%m%d"
-                ).date()
+                try:
+                    note_date = dt.datetime.strptime(
+                        zorg_id_date, "%Y%m%d"
+                    ).date()
+                except ValueError:
+                    # ZID-shaped word whose date part is not a calendar date.
+                    return
+                self._s.zid = zid
+                self._s.note_date = note_date
 
     def enterInline_prop(
         self, ctx: ZorgFileParser.Inline_propContext
